@@ -40,6 +40,12 @@ def dec50(mb):
 def plausible50(d):
     return abs(d["roll"]) <= 50 and d["gs"] <= 600 and d["tas"] <= 500 and abs(d["gs"] - d["tas"]) < 200
 
+def borderline50(d):
+    """the roll angle is the one BDS 5,0 value that is not a whole number (45/256 degree steps): between 50 and 51 degrees
+    "|roll| <= 50" holds of the shown (truncated) value and not of the exact one - the statement does not say which, so such a
+    register is neither required to be taken as BDS 5,0 nor required to be left to a later register"""
+    return not plausible50(d) and plausible50(dict(d, roll=int(d["roll"])))
+
 def valid60(mb):
     return all(bits(mb, k, k) == 1 for k in (1, 13, 24, 35, 46))
 
@@ -209,6 +215,8 @@ class C10(PropBase):
                         expect = "40"
                     elif (relaxed or 16 in adv_now) and valid50(mb) and nonzero50(mb) and plausible50(dec50(mb)):
                         expect = "50"
+                    elif (relaxed or 16 in adv_now) and valid50(mb) and nonzero50(mb) and borderline50(dec50(mb)):
+                        expect = None
                     elif (relaxed or 24 in adv_now) and valid60(mb) and nonzero60(mb) and plausible60(dec60(mb)):
                         expect = "60"
                 # soundness of whatever changed
